@@ -234,6 +234,17 @@ class StdinProxy:
         self._pos = j
         return data
 
+    def readlines(self, hint=-1):
+        out = []
+        while True:
+            ln = self.readline()
+            if not ln:
+                return out
+            out.append(ln)
+
+    def __iter__(self):
+        return iter(self.readlines())
+
     def isatty(self):
         return False
 
@@ -242,6 +253,42 @@ class StdinProxy:
 
     def fileno(self):
         raise io.UnsupportedOperation("fileno")
+
+    def close(self):
+        pass
+
+    closed = False
+    errors = "surrogateescape"
+    name = "<stdin>"
+    mode = "r"
+
+    @property
+    def buffer(self):
+        return _BinaryIn(self)
+
+
+class _BinaryIn:
+    """sys.stdin.buffer of a simulated process: the same stream as bytes (one seam event per read, like the text view)."""
+
+    def __init__(self, text):
+        self._t = text
+
+    def read(self, n=-1):
+        if n is not None and n >= 0:
+            # byte counts: read everything that is left and give back at most n bytes
+            t = self._t
+            rest = t._text[t._pos :].encode("utf-8", "surrogateescape")
+            d = t._s.ask("stdin-read", "<stdin>")
+            if d.get("a") == "short":
+                rest = rest[: int(len(rest) * d.get("frac", 0.5))]
+                t._text = t._text[: t._pos] + rest.decode("utf-8", "surrogateescape")
+            chunk = rest[:n]
+            t._pos += len(chunk.decode("utf-8", "surrogateescape"))
+            return chunk
+        return self._t.read().encode("utf-8", "surrogateescape")
+
+    def readable(self):
+        return True
 
     def close(self):
         pass
